@@ -202,7 +202,7 @@ StepY(m) ==
   ELSE IF IsF(g, "bb_b_put", 2) THEN
        LET kx == Deref(m.st, g.a[1]) IN
        IF kx.t # "a" THEN Thr(TypeErr("atom", kx))
-       ELSE [cont EXCEPT !.gv = (kx.n :> Apply(m.st, g.a[2])) @@ m.gv]
+       ELSE [cont EXCEPT !.st = Bind(m.st, OvVar(kx.n), Deref(m.st, g.a[2]))]
   ELSE IF IsF(g, "bb_get", 2) /\ Deref(m.st, g.a[1]).t = "a" /\ OvVar(Deref(m.st, g.a[1]).n) \in DOMAIN m.st THEN
        LET u == Unify(m.st, g.a[2], m.st[OvVar(Deref(m.st, g.a[1]).n)])
        IN IF u.cyc THEN Finish(m0, "cyclic")
